@@ -185,6 +185,8 @@ class G:
             env2 = tuple(env) + ((v, of),)
             elt = self.bool_(d - 1, env2)
             cond = f" if {self.bool_(d - 2, env2)}" if r.chance(35) else ""
+            if cond and r.chance(40):
+                cond += f" if {self.bool_(d - 2, env2)}"        # several filters on one `for` clause: all of them apply
             return f"{r.choice(['any', 'all'])}({elt} for {v} in {it}{cond})"
         if w < 68:  # BoolOp in operand position
             return f"(({self.int_(d - 1, env)} {r.choice(['or', 'and'])} {self.const_int()}) {self.cmp_op()} {self.int_(d - 1, env)})"
@@ -314,6 +316,13 @@ def gen_cases(rng, tier):
         b = lambda n_: ["t/col", [["varint", "astringb", n_]]]                          # noqa: E731
         for recs in ([a("abc", 1), b(7), a("x", 7), b(1)], [b(7), a("abc", 7), b(7), a("q", 2)]):
             cases.append({"src": src, "records": recs, "depth": 1})
+    # several `if` filters on one `for` clause, and two generator expressions that reuse one loop variable
+    for src in ["any(x > 2 for x in r.k if x < 5 if x != 3)", "all(x != 5 for x in r.k if x > 1 if x < 100)",
+                "any(x == 'b' for x in r.l if x != 'a' if x != 'B' if len(x) < 2)", "any(x == 1 for x in r.k) and any(x == 3 for x in r.k)",
+                "any(x == 5 for x in r.k) or any(x == 100 for x in r.k) or any(x == 7 for x in r.k)",
+                "any(x > 2 for x in r.k if x < 5 if x != 3) and any(x == 'abc' for x in r.l if x if x != 'b')"]:
+        for _ in range(3):
+            cases.append({"src": src, "records": [gen_record(rng.fork("multiif"), "matching") for _ in range(3)], "depth": 2})
     # one constructor called several times in ONE expression with arguments that are equal as Python objects but not the
     # same (1, 1.0, True): each call builds its own value
     for src in ["string(1) == '1' and string(1.0) == '1.0' and string(True) == 'True'",
